@@ -107,6 +107,33 @@ pub fn observe(session: &CompilerSession, dir: &Path, root: &str, run: bool) -> 
                         | Ok(Err(e)) => out.push(format!("coverage query err {}", first_word(&format!("{:?}", e)))),
                         | Err(p) => out.push(format!("coverage PANIC {}", p.msg)),
                     }
+                    // the same program pushed through check_resolved (externally resolved path) must agree
+                    // with analyze, however many programs this session has checked before
+                    if let Ok(Ok(g)) = guarded(|| session.graph(&path)) {
+                        let ext = guarded(|| -> Option<String> {
+                            use zydeco_surface::bitter::{SourceDesugarOut, SourceUnitDesugarer};
+                            use zydeco_surface::scoped::{ResolveSourceOut, Resolver};
+                            use zydeco_utils::pass::CompilerPass;
+                            let zydeco_session::source::TextualProgram { spans, arena, unit } = g.parse().ok()?;
+                            let SourceDesugarOut { arena, prim, root } = SourceUnitDesugarer::new(&spans, &arena, unit).run().ok()?;
+                            let ResolveSourceOut { prim, arena, root } = Resolver::new(&spans, arena, prim).run_source(root).ok()?;
+                            let out = session.check_resolved(spans, prim, arena, root);
+                            Some(match out.outcome.into_result() {
+                                | Ok(_) => "checked".to_string(),
+                                | Err(reports) => format!("rejected {}", reports.reports.len()),
+                            })
+                        });
+                        match ext {
+                            | Ok(Some(v)) => {
+                                out.push(format!("check_resolved {v}"));
+                                if (v == "checked") != verdict.accepted() {
+                                    out.push(format!("check_resolved DISAGREES with analyze ({})", verdict.tag()));
+                                }
+                            }
+                            | Ok(None) => {}
+                            | Err(p) => out.push(format!("check_resolved PANIC {}", p.msg)),
+                        }
+                    }
                     if run && verdict.accepted() {
                         let s = Subject { session: session.snapshot(), result: Ok(analysis.clone()) };
                         let r = s.run(b"", &[], 2000);
@@ -230,6 +257,9 @@ impl Histories {
                 let got = observe(&world.session, &world.dir, "root.zy", true);
                 let fresh = world.fresh();
                 let want = observe(&fresh, &world.dir, "root.zy", true);
+                if let Some(l) = got.0.iter().find(|l| l.contains("DISAGREES") || l.contains("check_resolved PANIC")) {
+                    return (transitions, Some(("check_resolved and analyze disagree on one program".to_string(), format!("after step {} {}\n{}", k + 1, op_text(op), l))));
+                }
                 if got != want {
                     let diff = got.0.iter().zip(want.0.iter()).find(|(a, b)| a != b).map(|(a, b)| format!("long-lived: {a}\nfresh:      {b}")).unwrap_or_else(|| format!("long-lived: {:?}\nfresh:      {:?}", got.0, want.0));
                     let kind = got.0.iter().zip(want.0.iter()).find(|(a, b)| a != b).map(|(a, _)| a.split(' ').next().unwrap_or("").to_string()).unwrap_or_else(|| "length".into());
@@ -264,7 +294,7 @@ impl Check for Histories {
         )
     }
     fn rule(&self) -> String {
-        format!("every history of <= {} mutating operations over 4 interdependent files (root.zy, lib.zy, companion lib.zyi, other.zy) and their content variants (valid v1/v2, syntax error, type error, import added/removed, import cycle, matching/mismatching signature): set_overlay, clear_overlay, write+refresh_disk, delete+refresh_disk ({} operations); each history runs on a real long-lived CompilerSession in three schedules: observe after every step, observe only at the end, and observe with an analysis of lib.zy in between (evicts the check memo); observation = graph (files, edges, provider order), verdict, report messages and spans, reports/coverage queries, run result; oracle = a fresh session over the same directory and overlays gives the same observation; states = histories, transitions = operations executed on the implementation; non-trivial = histories whose final observation differs from the initial one", self.depth, self.ops.len())
+        format!("every history of <= {} mutating operations over 4 interdependent files (root.zy, lib.zy, companion lib.zyi, other.zy) and their content variants (valid v1/v2, syntax error, type error, import added/removed, import cycle, matching/mismatching signature): set_overlay, clear_overlay, write+refresh_disk, delete+refresh_disk ({} operations); each history runs on a real long-lived CompilerSession in three schedules: observe after every step, observe only at the end, and observe with an analysis of lib.zy in between (evicts the check memo); observation = graph (files, edges, provider order), verdict, report messages and spans, reports/coverage queries, the verdict of the same program pushed through check_resolved, run result; oracle = a fresh session over the same directory and overlays gives the same observation; states = histories, transitions = operations executed on the implementation; non-trivial = histories whose final observation differs from the initial one", self.depth, self.ops.len())
     }
     fn timeout(&self) -> std::time::Duration {
         std::time::Duration::from_secs(300)
